@@ -150,9 +150,10 @@ pub fn all() -> Vec<Prop> {
             batches: |t| {
                 let mut b = prim_batches("limiter", 12000, 200_000, t);
                 b.push(Batch { engine: "pipe", mode: "rpc", runs: if t == "thorough" { 40_000 } else { 1000 } });
+                b.push(Batch { engine: "node", mode: "limits", runs: if t == "thorough" { 20_000 } else { 300 } });
                 b
             },
-            expected_probes: || vec!["several_handler_starts", "ping_rate_limited"],
+            expected_probes: || vec!["several_handler_starts", "ping_rate_limited", "consensus_requests_served_in_situ", "get_block_requests_served_in_situ", "push_tx_requests_served_in_situ", "in_situ_limiter_refilled"],
             components: || json!({
                 "real": ["concurrency::limiter", "network::rpc::Service / Server / Client, ping server, mux, frame (via hook H4)", "tokio sync primitives"],
                 "stub": ["transport (SimPipe)", "consensus request handler (holds requests like a replica withholding acks)", "greedy client (raw mux + scripted workers)", "clock (ManualClock advanced by the director)", "scheduler choice"],
